@@ -69,6 +69,7 @@ class Func(_Shared):
     locals: Dict[int, str]
     blocks: Dict[int, Block]
     line: int = 0
+    debug: Any = None
 
 
 class Cur:
@@ -484,6 +485,7 @@ def parse_mir(text: str) -> Dict[str, List[Func]]:
         start = i
         i += 1
         locals_: Dict[int, str] = {}
+        debug_: Dict[str, int] = {}
         blocks: Dict[int, Block] = {}
         for a, ty in hdr[1]:
             locals_[a] = ty
@@ -492,6 +494,11 @@ def parse_mir(text: str) -> Dict[str, List[Func]]:
             m = re.match(r'\s+let (?:mut )?_(\d+): (.*);$', l)
             if m:
                 locals_[int(m.group(1))] = m.group(2)
+                i += 1
+                continue
+            m = re.match(r'\s+debug (\w+) => _(\d+);$', l)
+            if m:
+                debug_.setdefault(m.group(1), int(m.group(2)))
                 i += 1
                 continue
             m = re.match(r'    bb(\d+)( \(cleanup\))?: \{$', l)
@@ -512,6 +519,7 @@ def parse_mir(text: str) -> Dict[str, List[Func]]:
                 continue
             i += 1
         f = Func(hdr[0], hdr[1], hdr[2], locals_, blocks, start + 1)
+        f.debug = debug_
         funcs.setdefault(hdr[0], []).append(f)
         i += 1
     return funcs
